@@ -4,13 +4,12 @@
    of the table stays valid through every combinator), for every grammar in which nothing changes the context (finding F18 is
    the failure of the theorem beyond that) and every memoized() has its own id (clones share it), every input, error type,
    mode and start state, on every run that is not cut off by left recursion.  Hence parse / check with tables = without
-   tables.  In the specification memoized() is Memoized::go without its table - the parser runs on an empty register and its
+   tables; and that machine is the machine tied to the code wherever it answers (Proofs/StrictOn.v, [strict_is_on]).  In the specification memoized() is Memoized::go without its table - the parser runs on an empty register and its
    pending error is merged back - which is the identity for parsers without recover_with (with it: finding F19).
    The theorems are about the machine [Q_strict] in which a left-recursive re-entry is flagged ([Panic PLeftRec]) instead of
    cut off, and a cached entry is only used with at least the fuel of the run that produced it (both proof devices, see
-   Model/Machine.v); that machine and the one tied to the code (flag vector of known_findings.json, memo_on) are run side by
-   side by the correspondence check.  MemoP.v keeps the memoization step for an abstract sub-interpreter. *)
-From Chum Require Import Corollaries MemoP MemoG.
+   Model/Machine.v); the correspondence check also runs both side by side.  MemoP.v keeps the memoization step for an abstract sub-interpreter. *)
+From Chum Require Import Corollaries MemoP MemoG StrictOn.
 
 (* THE GLOBAL THEOREM: the table-using machine refines the specification and keeps every table entry valid *)
 Theorem C11_machine_with_memo_tables_refines_the_specification :
@@ -28,6 +27,26 @@ Theorem C11_memo_tables_are_transparent_at_the_top_level :
     o = o' /\ (o <> None -> errs = errs') /\
     last errs (expected_found K [] None (spn 0 0)) = last errs' (expected_found K [] None (spn 0 0)).
 Proof. exact memo_run_top_transparent. Qed.
+
+(* the flagged machine IS the machine tied to the code wherever it answers (no left-recursive cut, enough fuel) *)
+Theorem C11_the_flagged_machine_is_the_code_machine :
+  forall K toks spn n m g ctx s r s1,
+    go Q_strict K toks spn n m g ctx s = (r, s1) -> answered r -> go Q_on K toks spn n m g ctx s = (r, s1).
+Proof. exact strict_is_on. Qed.
+
+(* so: the code's machine, with its memo tables, returns what the machine without tables returns *)
+Theorem C11_code_machine_with_tables_equals_without :
+  forall K toks spn mt n m g o errs o' errs',
+    wfm mt g [] ->
+    run_top Q_strict K toks spn n m g = TRes o errs ->          (* the run is not cut off by left recursion *)
+    run_top no_quirks K toks spn n m g = TRes o' errs' ->
+    run_top Q_on K toks spn n m g = TRes o errs /\
+    o = o' /\ (o <> None -> errs = errs') /\
+    last errs (expected_found K [] None (spn 0 0)) = last errs' (expected_found K [] None (spn 0 0)).
+Proof.
+  intros K toks spn mt n m g o errs o' errs' Hw H H'. split; [exact (strict_run_top_is_on K toks spn n m g o errs H)|].
+  exact (memo_run_top_transparent K toks spn mt n m g o errs o' errs' Hw H H').
+Qed.
 
 (* and from any state: verdict, value, end position, reported errors, pending error and user state *)
 Theorem C11_memo_tables_are_transparent :
@@ -123,6 +142,8 @@ Proof. vm_compute. discriminate. Qed.
 Print Assumptions C11_machine_with_memo_tables_refines_the_specification.
 Print Assumptions C11_memo_tables_are_transparent_at_the_top_level.
 Print Assumptions C11_memo_tables_are_transparent.
+Print Assumptions C11_the_flagged_machine_is_the_code_machine.
+Print Assumptions C11_code_machine_with_tables_equals_without.
 Print Assumptions C11_memoized_is_identity_in_the_specification.
 Print Assumptions C11_table_free_machine_is_specified.
 Print Assumptions C11_running_sheltered_and_merging_back_is_running_directly.
